@@ -124,8 +124,53 @@ def manual_mid_prelude(data, hist):
     return True
 
 
+def older_blocked_prelude(data, hist):
+    """Two queued pull requests with overlapping targets: the older one
+    starts on a lower branch, the newer one on a later branch. Every build
+    is green except those of the older one on the branches only it targets.
+    Nothing of the older one may land anywhere (and so nothing of the newer
+    one, which is stacked on it)."""
+    w = hist.world
+    chain = [n for n in w.chain if n in w.heads()]
+    if len(chain) < 2:
+        return False
+    i = data.draw(st.integers(0, len(chain) - 2), label='ob_low')
+    j = data.draw(st.integers(i + 1, len(chain) - 1), label='ob_high')
+    for k, (src, dst) in enumerate((('bugfix/TEST-1-ob', chain[i]),
+                                    ('feature/TEST-2-ob', chain[j]))):
+        hist.apply({'op': 'open_pr', 'src': src, 'dst': dst,
+                    'author': AUTHOR, 'base_back': 0})
+        if len(w.prs) != k + 1:
+            return False
+        pr = max(w.prs)
+        for u in (PEER1, PEER2, AUTHOR):
+            hist.apply({'op': 'approve', 'pr': pr, 'user': u})
+        for _ in range(2):
+            hist.apply({'op': 'pr_event', 'pr': pr})
+            hist.apply({'op': 'report_pr', 'pr': pr, 'state': 'SUCCESSFUL'})
+    low = set(b.split('/')[1] for b in chain[i:j])
+    bad = ('FAILED', 'INPROGRESS', None)[data.draw(st.integers(0, 2),
+                                                   label='ob_state')]
+    last = None
+    for q in sorted(n for n in w.heads() if n.startswith('q/')):
+        ver = q.split('/')[3] if q.startswith('q/w/') else q.split('/')[1]
+        state = bad if ver in low else 'SUCCESSFUL'
+        if state:
+            hist.apply({'op': 'report', 'sel': {'ref': q}, 'state': state})
+        if not q.startswith('q/w/'):
+            last = q
+    if last:
+        hist.apply({'op': 'commit_event', 'sel': {'ref': last}})
+    hist.flags.add('c03_older_blocked_prelude')
+    return True
+
+
 def prelude(data, hist, evaluate=True):
     w = hist.world
+    if evaluate and w.mode == 'queue' and data.draw(
+            st.integers(0, 3), label='older_blocked') == 0:
+        if older_blocked_prelude(data, hist):
+            return
     if evaluate and w.mode == 'skipqueue':
         which = data.draw(st.integers(0, 2), label='stale_prelude')
         if which == 1 and stale_prelude(data, hist):
